@@ -62,7 +62,7 @@ def generate(rng, tier="quick"):
     extra = []
     for _ in range(nextra):
         u = rng.choice(sorted(world["docs"]))
-        names = sorted(world["docs"][u].get("definitions", {}))
+        names = sorted(world["docs"][u].get("definitions", {})) if isinstance(world["docs"][u], dict) else []
         extra.append(u + rng.choice(["", "#"]) if not names or rng.random() < 0.3
                      else u + "#/definitions/" + rng.choice(names))
     base["extra_validators"] = extra
